@@ -380,7 +380,7 @@ pub fn run(ctx: &Ctx, rep: &mut Report) {
     rep.prop(
         "mutated-streams",
         "proptest: valid streams (1..4 messages of all kinds, type 31 with permuted/gapped layouts, type-15 frames carrying a clutter map) mutated by 1..8 operators {truncate, bit flip, byte set, splice, strip header, append, field-directed extremes: size field, type code, date 0, block count 0/1/11/65535, pointers 0/backwards/equal/past end/u32::MAX, unknown/non-UTF-8 block names, gates 65535, word size 0/7/9/255, VCP cut count 52/65535, CFM segment count 256/65535, zone count 65535}; every entry point observed; non-trivial = some decoder got past its fixed header",
-        ctx.tier.pick(400_000, 8_000_000),
+        ctx.tier.pick(1_500_000, 8_000_000),
         mut_case_strategy,
         |c| {
             let b = apply(c);
@@ -423,7 +423,7 @@ pub fn run(ctx: &Ctx, rep: &mut Report) {
     rep.prop(
         "random-bytes",
         "proptest: uniformly random bytes with lengths sampled from 0..=8192 (short lengths boosted), plus buffers whose first 64 bytes are random and the rest a constant; non-trivial = some decoder got past its fixed header",
-        ctx.tier.pick(150_000, 3_000_000),
+        ctx.tier.pick(500_000, 3_000_000),
         || {
             let len = prop_oneof![4 => 0usize..=200, 3 => 200usize..=2500, 1 => 2500usize..=8192];
             len.prop_flat_map(|n| (vec(any::<u8>(), n.min(96)), any::<u64>(), any::<bool>(), Just(n))).prop_map(|(head, seed, constant_tail, n)| {
